@@ -47,6 +47,10 @@ CHECKS = {
    text="to_dao / from_dao run on symbolic object graphs against a DAO layer generated at check time by the current tree's ORMatic: the graph shape (classes incl. subclasses, parent links with self references and cycles, shared targets, ordered collections with repeats, None-ness, alternatively mapped objects) is a vector of bounded symbolic choices explored exhaustively, every scalar field is an unbounded z3 integer that flows through SQLAlchemy's instrumented attributes. Oracle: bisimulation with identity classes between original and round-tripped graph (same classes, same sharing, order, None positions) and, decided by the solver on every path, equality of all scalar fields.",
    note="2 nodes (quick) / 3 nodes (thorough), pool of 2 shared targets, collections of <= 2/3 elements; enum/datetime/str/float/bool/JSON-list values from small pools; custom TypeDecorator columns and self-referential collections outside. Trusted: z3, symx proxies (native re-run on seeded values every run), SQLAlchemy attribute instrumentation.",
    technique=SYMX),
+ "C05": dict(category="exploration", design="DESIGN.md 4 C05",
+   text="Bounded exhaustive exploration driven by the symx engine: the C04 graph shapes (classes incl. subclasses and a class derived through an unmapped intermediate class, parent links with cycles, shared and value-equal-but-distinct targets, collections, alternatively mapped objects, the DAO class used for loading) are bounded symbolic choices enumerated completely; every path persists to_dao(root) into sqlite through krrood's engine, loads in a NEW session, calls from_dao and compares graph isomorphism (classes, sharing, None positions, collections as sets of elements, values) and row count per table == number of distinct objects. SQLAlchemy's unit of work and sqlite are executed, not encoded - all symbolic variables are finite choices, which is why the level is exploration, not model checking.",
+   note="2 nodes (quick) / 3 nodes (thorough); scalar values from small pools (incl. 0, '', False, []); sqlite only; the database is emptied (not re-created) between paths. Trusted: the isomorphism oracle, SQLAlchemy, sqlite.",
+   technique="symx-driven exhaustive enumeration of a bounded shape space (solver prunes/forces choices); concrete execution of SQLAlchemy + sqlite per path"),
 }
 NA_REASON = "check not built yet (build in progress, see DESIGN.md section 9 for the build order)"
 NA = {}
